@@ -1277,7 +1277,8 @@ def classify(step: dict, sr: dict, base: str):
         by_name, by_link = set(), set()
         for p in idx:
             comps = p.split(b"/")
-            via_link = any(b"/".join(comps[:k]) in links for k in range(1, len(comps))) and b".." not in comps and b"" not in comps
+            # a leading component OR the path itself is a symlink on disk (open(..., "wb") follows a final link too)
+            via_link = any(b"/".join(comps[:k]) in links for k in range(1, len(comps) + 1)) and b".." not in comps and b"" not in comps
             unsafe = any(c in (b"", b".", b"..") or dotgit_like(c, "b") for c in comps)
             if via_link:
                 q = _resolve_rel(p, links, base)
@@ -1293,7 +1294,7 @@ def classify(step: dict, sr: dict, base: str):
         if touched <= by_name:
             return "sparse-unvalidated-index-name"
         if touched <= by_link | by_name:
-            return "sparse-through-leading-symlink"
+            return "sparse-through-symlink"
     if op in ("patch", "patch_to") and changed and not removed:
         dests = {_resolve_rel(l, links, base) for l in links}
         if all(os.fsencode(d[0]) in dests for d in changed):
